@@ -41,7 +41,8 @@ ObsGood(r, o, SE) ==
      /\ o.static <=> (errs # {})
      /\ o.static => o.effects = 0 /\ ~o.ok /\ ~o.evalerr /\ ~o.compiled
      \* a program that breaks no rule compiles and starts running
-     /\ ~o.static => o.compiled /\ (o.ok \/ o.evalerr) /\ o.effects >= 1
+     \* (r.fx: the program's first statement is a host call)
+     /\ ~o.static => o.compiled /\ (o.ok \/ o.evalerr) /\ (r.fx => o.effects >= 1)
      /\ ~o.panic
      \* load binds module globals exactly when LoadBindsGlobally
      /\ o.ok => \A n \in OnlyLoaded(r.ast) : (n \in RangeOf(o.globals)) <=> Bit(o.m, 16)
@@ -54,6 +55,20 @@ ParseRejected(o) == o.static /\ o.effects = 0 /\ ~o.ok /\ ~o.evalerr /\ ~o.compi
 ObsMach(r, o, SE) ==
   r.pl.rule = "none" \/ ((\E v \in SE : v.rule = r.pl.rule /\ r.pl.p \in v.at) <=> o.active)
 
+\* why an observation was rejected (first failing requirement), for the report
+Diag(r, o, SE) ==
+  LET errs == RangeOf(o.errs)
+      P    == {v \in SE : v.rule = r.pl.rule /\ r.pl.p \in v.at}
+      stray == {e \in errs : ~\E v \in SE : Match(e, v)}
+  IN IF errs = {} /\ SE # {} THEN <<"accepted", {v.rule : v \in SE}>>
+     ELSE IF errs # {} /\ SE = {} THEN <<"rejected-valid", {e.cls : e \in errs}>>
+     ELSE IF stray # {} THEN <<"misreported", {e.cls : e \in stray}>>
+     ELSE IF P # {} /\ ~\E e \in errs : \E v \in P : Match(e, v) THEN <<"unreported", {r.pl.rule}>>
+     ELSE IF o.static /\ o.effects > 0 THEN <<"ran-before-rejection", {}>>
+     ELSE IF o.panic THEN <<"panic", {}>>
+     ELSE IF o.ok /\ \E n \in OnlyLoaded(r.ast) : (n \in RangeOf(o.globals)) # Bit(o.m, 16) THEN <<"load-globals", {}>>
+     ELSE <<"pipeline", {}>>
+
 CheckRec(r) ==
   IF ~r.parse_ok THEN \A j \in DOMAIN r.obs : ParseRejected(r.obs[j]) \/ PrintT(<<"BAD", r.obs[j].n>>)
   ELSE \* one evaluation of the oracle per distinct static option vector of the record
@@ -61,7 +76,7 @@ CheckRec(r) ==
                    StaticErrorsV(r.ast, OptsOf(k), RangeOf(r.pre), Relax)]
        IN \A j \in DOMAIN r.obs :
             LET o == r.obs[j] IN
-            /\ ObsGood(r, o, T[o.m % 32]) \/ PrintT(<<"BAD", o.n>>)
+            /\ ObsGood(r, o, T[o.m % 32]) \/ PrintT(<<"BAD", o.n>> \o Diag(r, o, T[o.m % 32]))
             /\ Relax \/ ObsMach(r, o, T[o.m % 32]) \/ PrintT(<<"BAD", 0 - o.n>>)
 
 K == 64
